@@ -9,7 +9,7 @@ Vals3s == { N(1), <<"Pre", "-", N(1)>>, S(<<97,98>>), S(<<40>>), KwL("null"), Id
 Funs3 == BuiltinNames \ {"now", "toDay"}
 AllBinOps == BinOps \cup {","}
 Vals3x == Vals3 \cup {Id("im"), Id("ps"), Id("tm")}
-Callees3 == Funs3 \cup {"rec", "fail", "failv", "add2", "cat", "nl", "np", "i", "s", "m", "undefined", "st"}
+Callees3 == Funs3 \cup {"rec", "fail", "failv", "add2", "cat", "crec", "cstr", "nl", "np", "i", "s", "m", "undefined", "st"}
 GroupsC03 == { <<"call", f>> : f \in Callees3 } \cup { <<"bin", op>> : op \in AllBinOps } \cup { <<"misc">> } \cup { <<"alias">> }
              \cup { <<"call3", f>> : f \in {"mid", "lpad", "rpad", "replace", "date", "left", "max", "addDate", "roundCash"} }
 GroupProgramsC03(g) ==
